@@ -12,6 +12,7 @@ import (
 	"fmt"
 	"os"
 	"os/exec"
+	"runtime/pprof"
 	"sort"
 	"strconv"
 	"strings"
@@ -110,48 +111,43 @@ func plan(tier string) []group {
 			cfgs = append(cfgs, pcfg{KeyLen: kl, EIH: eih, FSize: 2})
 		}
 	}
+	one := []uint64{maxU64}
+	two := []uint64{1, maxU64}
 	if tier == "quick" {
-		inv := []uint64{maxU64}
 		for _, c := range cfgs {
-			add('s', c, nil, 5, inv)
+			add('s', c, nil, 5, one)
 		}
-		add('s', pcfg{KeyLen: 16, FSize: 0}, nil, 4, inv)
-		add('s', pcfg{KeyLen: 32, EIH: true, FSize: 64}, nil, 4, inv)
-		for i, c := range cfgs {
-			for pi, p := range clientPrefixes {
-				d := 3
-				if i == 0 || i == 3 {
-					d = 4
-				}
-				if pi == 0 && i == 0 {
-					d = 4
-				}
-				add('c', c, p, d, inv)
+		add('s', cfgs[0], nil, 6, one)
+		add('s', pcfg{KeyLen: 16, FSize: 0}, nil, 5, one)
+		add('s', pcfg{KeyLen: 32, EIH: true, FSize: 64}, nil, 5, one)
+		for _, c := range cfgs {
+			for _, p := range clientPrefixes {
+				add('c', c, p, 4, one)
 			}
 		}
-		add('c', pcfg{KeyLen: 16, FSize: 0}, clientPrefixes[2], 3, inv)
+		add('c', pcfg{KeyLen: 16, FSize: 0}, clientPrefixes[2], 4, one)
 		return gs
 	}
-	inv := []uint64{1, maxU64}
 	for _, fs := range []uint64{2, 64, 0} {
-		for _, c := range cfgs {
+		for i, c := range cfgs {
 			c.FSize = fs
-			d := 5
-			if fs == 2 && c.KeyLen == 16 {
-				d = 6
+			add('s', c, nil, 6, two)
+			if fs == 2 && i == 0 {
+				add('s', c, nil, 7, one)
 			}
-			add('s', c, nil, d, inv)
 		}
 	}
 	for _, fs := range []uint64{2, 0} {
 		for i, c := range cfgs {
 			c.FSize = fs
-			for _, p := range clientPrefixes {
-				d := 4
-				if fs == 2 && (i == 0 || i == 3) {
-					d = 5
+			for pi, p := range clientPrefixes {
+				add('c', c, p, 4, two)
+				if fs == 2 {
+					add('c', c, p, 5, one)
 				}
-				add('c', c, p, d, inv)
+				if fs == 2 && i == 0 && pi == 0 {
+					add('c', c, p, 6, one)
+				}
 			}
 		}
 	}
@@ -296,6 +292,11 @@ func workerMain(shard, tier string, budget time.Duration) {
 	if n <= 0 {
 		n = 1
 	}
+	if pf := os.Getenv("C04_PROF"); pf != "" {
+		f, _ := os.Create(pf)
+		pprof.StartCPUProfile(f)
+		defer pprof.StopCPUProfile()
+	}
 	gs := plan(tier)
 	res := &wres{Groups: make([]gstat, len(gs)), Viol: map[string]*pviol{}, Verdicts: map[string]int64{}}
 	st := &pstats{Verdicts: res.Verdicts}
@@ -329,6 +330,7 @@ func workerMain(shard, tier string, budget time.Duration) {
 	sort.Slice(res.States, func(a, b int) bool { return res.States[a] < res.States[b] })
 	b, _ := json.Marshal(res)
 	os.Stdout.Write(b)
+	pprof.StopCPUProfile()
 	os.Exit(0)
 }
 
@@ -347,7 +349,7 @@ func packetPart(c *harness.Check, budget time.Duration) {
 		go func(i int) {
 			defer wg.Done()
 			cmd := exec.Command(os.Args[0], "--worker", "c04pkt", "--shard", fmt.Sprintf("%d/%d", i, n), "--param", c.Tier, "--budget", budget.String())
-			cmd.Env = append(os.Environ(), "GOMAXPROCS=2")
+			cmd.Env = append(os.Environ(), "GOMAXPROCS=1")
 			cmd.Stderr = os.Stderr
 			o, err := cmd.Output()
 			if err != nil {
@@ -425,18 +427,18 @@ func packetPart(c *harness.Check, budget time.Duration) {
 	sa := serverAlphabet(2, []uint64{maxU64})
 	ca := clientAlphabet(2, []uint64{maxU64})
 	c.Part("packets", map[string]any{
-		"ops":                              "G genuine (server session S, packet ID; a repeated op re-delivers the same bytes) | F forged tag | - timestamp 31 s old | + timestamp 31 s ahead (valid later) | T wrong direction type, re-sealed with the right key | X foreign client session | B real server packet for another client session | R client's own packet reflected | A advance clock 59/60/61 s",
-		"server_alphabet_window2":          popsString(sa),
-		"client_alphabet_window2":          popsString(ca),
-		"session_symmetry":                 "client side: server sessions 0,1,2 are introduced in order (they are interchangeable)",
-		"client_prefixes":                  prefixStrings(),
-		"groups":                           groupsOut,
-		"histories":                        hist,
-		"distinct_reference_states":        len(states),
-		"situation_x_real_verdict":         verdicts,
-		"statement_silent_zones_observed":  either,
-		"worker_processes":                 n,
-		"packet_ids_set_through":           "overlay_static/ss2022/c04_export.go (packer packet-ID setters)",
+		"ops":                             "G genuine (server session S, packet ID; a repeated op re-delivers the same bytes) | F forged tag | - timestamp 31 s old | + timestamp 31 s ahead (valid later) | T wrong direction type, re-sealed with the right key | X foreign client session | B real server packet for another client session | R client's own packet reflected | A advance clock 59/60/61 s",
+		"server_alphabet_window2":         popsString(sa),
+		"client_alphabet_window2":         popsString(ca),
+		"session_symmetry":                "client side: server sessions 0,1,2 are introduced in order (they are interchangeable)",
+		"client_prefixes":                 prefixStrings(),
+		"groups":                          groupsOut,
+		"histories":                       hist,
+		"distinct_reference_states":       len(states),
+		"situation_x_real_verdict":        verdicts,
+		"statement_silent_zones_observed": either,
+		"worker_processes":                n,
+		"packet_ids_set_through":          "overlay_static/ss2022/c04_export.go (packer packet-ID setters)",
 	})
 	c.Sample(map[string]any{"part": "packets", "under_test": "client-unpacker", "history": []string{"G:0:0", "A:61", "G:1:0", "G:0:0", "F:1:18446744073709551615", "G:1:1"}, "meaning": "server session 0 delivers id 0; 61 s later session 1 takes over; the replay of session 0's packet must be refused; a forged session-1 packet with id 2^64-1 must be refused and must not stop the genuine id 1 from being delivered"})
 	c.Sample(map[string]any{"part": "packets", "under_test": "server-unpacker", "history": []string{"G:0:3", "G:0:1", "G:0:2", "+:0:18446744073709551615", "A:59", "+:0:18446744073709551615"}, "meaning": "window 2: after id 3, id 1 is behind the window (refused), id 2 is accepted; a packet stamped 31 s ahead is refused now and accepted 59 s later"})
@@ -542,6 +544,6 @@ func main() {
 		"server side: the foreign-session packet is handed to the session's unpacker directly (the relay would route it elsewhere)",
 	}
 	filterPart(c, harness.Pick(c, 5, 6))
-	packetPart(c, harness.Pick(c, 100*time.Second, 50*time.Minute))
+	packetPart(c, harness.Pick(c, 150*time.Second, 75*time.Minute))
 	c.Finish()
 }
